@@ -203,6 +203,11 @@ class SharedMemoryFileBufferedCollection(FileBufferedCollection):
                 # If all we had to do is set the flag, it could be done without any
                 # check, but we also need to increment the number of modified
                 # items, so we may as well do the update conditionally as well.
+                # The data being saved is by definition the latest: it may be a
+                # different container than the one stored if this collection
+                # was re-initialized (see _flush) and then reset or cleared,
+                # which save without loading from the buffer first.
+                type(self)._buffer[self._filename]["contents"] = self._data
                 if not type(self)._buffer[self._filename]["modified"]:
                     type(self)._buffer[self._filename]["modified"] = True
                     type(self)._CURRENT_BUFFER_SIZE += 1
